@@ -18,6 +18,9 @@ _VAR_Z3 = {}             # id -> z3 Real
 _VAR_SIGN = {}           # id -> 'pos' | 'nonneg' | None
 
 
+_Z3_CACHE = {}          # Poly -> z3 term (hash-consing across re-executed paths)
+
+
 def reset_vars():
     """Forget all variables (called when a new exploration context is created, so that
     sign declarations of one harness can never leak into another)."""
@@ -25,6 +28,7 @@ def reset_vars():
     _VAR_IDS.clear()
     _VAR_Z3.clear()
     _VAR_SIGN.clear()
+    _Z3_CACHE.clear()
 
 
 def var_id(name, sign=None):
@@ -347,6 +351,10 @@ class Poly:
 
     def z3(self):
         if self._z is None:
+            hit = _Z3_CACHE.get(self)
+            if hit is not None:
+                self._z = hit
+                return hit
             terms = []
             for m, c in sorted(self.t.items(), key=lambda kv: _mono_key(kv[0])):
                 fs = []
@@ -365,6 +373,9 @@ class Poly:
                 self._z = terms[0]
             else:
                 self._z = z3.Sum(terms)
+            if len(_Z3_CACHE) > 200000:
+                _Z3_CACHE.clear()
+            _Z3_CACHE[self] = self._z
         return self._z
 
     def __repr__(self):
